@@ -416,7 +416,9 @@ def run(repo, rep):
     # ---------------------------------------------------------------- M3
     send = repo.func('asceprovider', 'Association.send')
     rep.analysed(send)
-    c = SymClient(repo, send, event_of=ev_kind, hierarchy=hier, inline=repo.is_helper)
+    msgp = send.params[1] if len(send.params) > 1 else 'dimse_msg'
+    c = SymClient(repo, send, event_of=ev_kind, hierarchy=hier, inline=repo.is_helper,
+                  store_event=lambda t_: t_.startswith(msgp + '.'))
     fin = c.final_states(c.run(empty_state()))
     probs = []
     for s, how in fin:
@@ -428,6 +430,14 @@ def run(repo, rep):
                 probs.append('encode() is reached without set_length() before it')
             elif pre[-1].callee.rsplit('.', 1)[0] != s.trail[i].callee.rsplit('.', 1)[0]:
                 probs.append('set_length() is called on %s but %s is encoded' % (pre[-1].callee, s.trail[i].callee))
+            else:
+                # the length that was measured is the length that is sent: nothing is written to the message in between
+                j = max(k_ for k_, e_ in enumerate(s.trail[:i]) if e_.kind == 'set_length')
+                for e_ in s.trail[j + 1:i]:
+                    if e_.kind == 'store' and e_.callee.startswith(msgp + '.'):
+                        probs.append('%s is written (line %d) after set_length() measured the command set and before it is encoded: '
+                                     'the Command Group Length that goes out is the one of the message as it was before'
+                                     % (e_.callee, e_.line))
     if not any('msg.encode' in [e.kind for e in s.trail] for s, _ in fin):
         probs.append('send does not encode the message')
     rep.check(not probs, 'C08.M3', 'asceprovider:Association.send:length-before-encode', send.loc(),
